@@ -11,6 +11,8 @@ import (
 	_ "verif/htlab/internal/props/c08"
 	_ "verif/htlab/internal/props/c09"
 	_ "verif/htlab/internal/props/c10"
+	_ "verif/htlab/internal/props/c11"
+	_ "verif/htlab/internal/props/c12"
 	_ "verif/htlab/internal/props/c17"
 	_ "verif/htlab/internal/props/c19"
 )
